@@ -63,14 +63,14 @@ func vxConfig(b *versionedKVBackend, ctx context.Context, s logical.Storage) (*C
 	c := *vxCfg
 	return &c, nil
 }
-func vxDVADisabled(c *Configuration) bool                    { return true } // delete_version_after: outside this claim
-func vxTsString(t *timestamppb.Timestamp) string             { return "" }
-func vxJSONMarshal(v any) ([]byte, error)                    { return vxBox(v), nil }
-func vxProtoMarshal(m proto.Message) ([]byte, error)         { return vxBox(m), nil }
-func vxTsNow() *timestamppb.Timestamp                        { return &timestamppb.Timestamp{Seconds: 7} }
-func vxLockIndex(key string) uint8                           { return 0 }
-func vxTsCheckValid(t *timestamppb.Timestamp) error         { return nil }
-func vxTsAsTime(t *timestamppb.Timestamp) time.Time          { return time.Time{} }
+func vxDVADisabled(c *Configuration) bool            { return true } // delete_version_after: outside this claim
+func vxTsString(t *timestamppb.Timestamp) string     { return "" }
+func vxJSONMarshal(v any) ([]byte, error)            { return vxBox(v), nil }
+func vxProtoMarshal(m proto.Message) ([]byte, error) { return vxBox(m), nil }
+func vxTsNow() *timestamppb.Timestamp                { return &timestamppb.Timestamp{Seconds: 7} }
+func vxLockIndex(key string) uint8                   { return 0 }
+func vxTsCheckValid(t *timestamppb.Timestamp) error  { return nil }
+func vxTsAsTime(t *timestamppb.Timestamp) time.Time  { return time.Time{} }
 
 func vxVersionKey(b *versionedKVBackend, ctx context.Context, key string, version uint64, s logical.Storage) (string, error) {
 	return "versions/" + key + "/" + strconv.Itoa(int(version)), nil
